@@ -1,23 +1,22 @@
 (* Layer R, definitions: the simulation relation (Prop) between PipeConc states and machine states, and its basic properties. *)
 From Coq Require Import ZArith NArith List String Bool Lia Arith.
-From Wencry Require Import Bytes FileModel ModesProofs FileProofsDec PipeConc PipeProps PipeLemmas MiniC MiniCLemmas MiniCConc SrcRun.
-From Wencry Require Import RefineConcPipe RefineE2EfPipe.
-From Wencry Require Import RefineE2EfLay RefineE2EfMach RefineE2EfMem RefineE2EfTac RefineE2EfStepW RefineE2EfStepW2.
+From Wencry Require Import Bytes FileModel ModesProofs FileProofsDec PipeConc PipeProps PipeLemmas MiniC MiniCLemmas MiniCConc SrcRun SrcRun4.
+From Wencry Require Import RefineConcPipe.
+From Wencry Require Import RefineConcSim RefineConcMem RefineConcMach RefineConcTac RefineConcStepW RefineConcStepW2.
 Import ListNotations.
 Local Open Scope list_scope.
 
-Lemma In_skipn' : forall (A : Type) n (l : list A) x, In x (skipn n l) -> In x l.
-Proof. intros A n. induction n as [|n IH]; intros [|a l] x H; cbn [skipn] in H; auto. right. apply IH. exact H. Qed.
-Lemma bskip : forall n l, bytesb l = true -> bytesb (skipn n l) = true.
-Proof. intros n l H. unfold bytesb in *. rewrite forallb_forall in *. intros x Hx. apply H. eapply In_skipn'. exact Hx. Qed.
+(* the normalisation of the machine's events (the definitions of Properties_SrcConc.v) *)
+Definition norm_ev (e : MiniCConc.event) : PipeConc.event :=
+  match e with (k, o, v) => (Z.to_nat k, if (o <? 0)%Z then NOOBJ else Z.to_nat o, Z.to_nat v) end.
+Definition is_marker (e : MiniCConc.event) : bool := match e with (k, _, _) => (k =? 20)%Z || (k =? 21)%Z end.
+Definition nev (evs : list MiniCConc.event) : list PipeConc.event := map norm_ev (filter (fun e => negb (is_marker e)) evs).
 
-Notation St := LS.
-Notation pstep := (PipeConc.step LS Ltr Lev).
+Notation St := (N * N)%type.
+Notation pstep := (PipeConc.step St tag_tr tag_event).
 
 Section Rel.
-Context {LY : Layout} {LO : LayoutOk}.
 Variables (c T : nat) (pad : bool) (input0 : list N).
-Notation reach := (reach c T pad (skipn Lpos0 input0) LS Ltr Lev (Lsig0 T)).
 
 Definition byteZ (z : Z) : Prop := (0 <= z < 256)%Z.
 (* buffer i of the model against buffer i of the machine; ret: the I/O thread has retired it *)
@@ -28,17 +27,17 @@ Definition brel (ret : bool) (b : buf) (mb : mbuf) : Prop :=
     map Z.to_N (firstn (16 * b_total b) (mb_cells mb)) = concat (b_data b))
    \/ (ret = true /\ (0 <= mb_tot mb <= mb_now mb)%Z /\ (mb_now mb < 2 ^ 32)%Z /\ (mb_tot mb <= Z.of_nat c)%Z /\ (b_total b <= b_now b)%nat)).
 
-Definition retired (s : pstate) (i : nat) : bool :=
-  bst_eqb (b_st (getb _ s i)) INV || (match io _ s with I_SetReady 2 => true | _ => false end && Nat.eqb (turn _ s) i).
+Definition retired (s : pstate) (i : nat) : bool := retiredb s i.
 
 Definition drel (s : pstate) (d : mdata) : Prop :=
   List.length (bufs _ s) = T /\ List.length (wpcs _ s) = T /\ List.length (wsts _ s) = T /\
-  List.length (d_bufs d) = T /\ Forall byteZ (d_out d) /\
+  List.length (d_bufs d) = T /\ List.length (d_ns d) = T /\
   d_turn d = turn _ s /\ (turn _ s < T)%nat /\ d_over d = over _ s /\ d_live d = live _ s /\ (live _ s <= T)%nat /\
-  crashed _ s = None /\ d_out d = (Lout0 ++ map Z.of_N (concat (output _ s)))%list /\
+  crashed _ s = None /\ d_out d = map Z.of_N (concat (output _ s)) /\
   (forall i, (i < T)%nat -> brel (retired s i) (getb _ s i) (nth i (d_bufs d) mb0)) /\
-  (forall i, (i < T)%nat -> srep T i (nth i (wsts _ s) LdS) (d_sm d)) /\
-  (over _ s = false -> d_eof d = false /\ True /\ input _ s = loads_of c pad (skipn (d_pos d) input0)).
+  (forall i, (i < T)%nat -> let x := nth i (wsts _ s) (0%N, 0%N) in
+                            fst x = N.of_nat i /\ nth i (d_ns d) 0%Z = (Z.of_N (snd x) mod 2 ^ 32)%Z) /\
+  (over _ s = false -> d_eof d = false /\ (d_pos d <= List.length input0)%nat /\ input _ s = loads_of c pad (skipn (d_pos d) input0)).
 
 (* the thread ghost *)
 Definition wl_ok (i : nat) (p : wpc) (wl : locs) : Prop :=
@@ -61,7 +60,7 @@ Definition tg_ok (s : pstate) (g : tghost) : Prop :=
   forall i, (i < T)%nat -> wl_ok i (getw _ s i) (nth i (g_wl g) []).
 
 Definition sim (s : pstate) (cs : cstate) : Prop :=
-  exists d g, cs = cstate_md c T pad input0 (io _ s) (wpcs _ s) d g /\ drel s d /\ tg_ok s g /\ reach s.
+  exists d g, cs = cstate_md c T pad input0 (io _ s) (wpcs _ s) d g /\ drel s d /\ tg_ok s g /\ reach c T pad input0 s.
 
 (* ---- the ranges of the machine data follow ---- *)
 Hypothesis Hc : (1 <= c)%nat.
@@ -79,8 +78,8 @@ Qed.
 Lemma drel_dwf : forall s d, drel s d -> dwf c T d.
 Proof.
   intros s d (Lb & Lw & Lx & Ldb & Ldn & Htu & HtT & Hov & Hlv & HlT & Hcr & Hout & Hbuf & Hws & Hin).
-  unfold dwf. split; [exact Ldb|]. split; [exact I|]. split; [lia|]. split; [lia|]. split; [lia|]. split; [lia|]. split; [exact Hc32|]. split.
+  unfold dwf. split; [exact Ldb|]. split; [exact Ldn|]. split; [lia|]. split; [lia|]. split; [lia|]. split; [lia|]. split; [exact Hc32|]. split.
   - intros i Hi. eapply brel_bwf. apply Hbuf. exact Hi.
-  - intros i Hi. eexists. apply (Hws i Hi).
+  - intros i Hi. destruct (Hws i Hi) as [_ E]. rewrite E. apply Z.mod_pos_bound. lia.
 Qed.
 End Rel.
